@@ -21,7 +21,7 @@ static const bool IS_CPLX = Eigen::NumTraits<T>::IsComplex;
 const char* vf_driver() { return "c10_bkldlt"; }
 static const LD C = 64;
 
-static const char* CLS[] = {"spd", "indefinite", "zero-diagonal", "block-diagonal", "graded", "integer", "arrow", "tridiagonal"};
+static const char* CLS[] = {"spd", "indefinite", "zero-diagonal", "block-diagonal", "graded", "integer", "arrow", "tridiagonal", "pivot-stress"};
 static const char* SHK[] = {"zero", "random", "equal-diagonal-entry", "near-diagonal-entry"};
 static const char* PRES[] = {"plain", "map", "block", "expression"};
 
@@ -91,6 +91,21 @@ static MatC gen(vf::Ctx& ctx, int n, int cls)
             for (int i = 0; i < n; i++) A(i, i) = T(R(r.gauss()));
             for (int i = 1; i < n; i++) { T v = rnd<T>(r); A(i, 0) = v; A(0, i) = herm(v); }
             break;
+        case 8:
+        {
+            // pivot stress: a path plus a few random couplings whose magnitudes are spread over many decades, diagonal entries zero, tiny or O(1):
+            // whichever row the pivot search lands on (also the last ones), a wrong comparison there shows as element growth
+            const double dec = sizeof(R) == 4 ? 3.0 : 6.0;
+            auto mag = [&]() { return T(R((r.coin() ? 1 : -1) * std::pow(10.0, r.uni(-dec, dec) * (r.coin(0.5) ? 1.0 : 0.0)))); };
+            for (int i = 0; i < n; i++) { const double x = r.uni(); A(i, i) = x < 0.4 ? T(0) : (x < 0.6 ? T(R(1e-8 * r.gauss())) : T(R(r.gauss()))); }
+            for (int i = 0; i + 1 < n; i++) { T v = mag() * (Eigen::NumTraits<T>::IsComplex ? rnd<T>(r) / T(R(std::abs(rnd<T>(r)) + R(1))) + T(R(1)) : T(R(1))); A(i + 1, i) = v; A(i, i + 1) = herm(v); }
+            for (int q = 0; q < n / 2; q++)
+            {
+                const int i = (int) r.range(0, n - 1), j = (int) r.range(0, n - 1);
+                if (i > j + 1) { T v = mag(); A(i, j) = v; A(j, i) = herm(v); }
+            }
+            break;
+        }
         default:
             for (int i = 0; i < n; i++) A(i, i) = T(R(r.gauss()));
             for (int i = 0; i + 1 < n; i++) { T v = rnd<T>(r); A(i + 1, i) = v; A(i, i + 1) = herm(v); }
@@ -168,7 +183,7 @@ static void nonsingular_case(vf::Ctx& ctx)
 {
     auto& r = ctx.rng;
     const int n = r.coin(0.45) ? (int) r.range(1, 12) : (int) r.range(13, 80);
-    const int cls = (int) r.range(0, 7);
+    const int cls = (int) r.range(0, 8);
     const int shk = (int) r.range(0, 3);
     MatC A = gen(ctx, n, cls);
     R sigma = 0;
@@ -191,6 +206,17 @@ static void nonsingular_case(vf::Ctx& ctx)
     if (!(pmin > 1e3L * n * u * pmax)) { ctx.count("skipped_numerically_singular"); return; }
     Vec b(n);
     for (int i = 0; i < n; i++) b[i] = rnd<T>(r);
+    // half of the time b = (A - sigma I) w with w of O(1) entries: the solution then has O(1) components everywhere (a random b mostly excites the
+    // directions of the small singular values, which hides element growth in the others)
+    if (r.coin(0.5))
+    {
+        Vec w(n);
+        for (int i = 0; i < n; i++) w[i] = rnd<T>(r);
+        Vec bw = A * w - T(sigma) * w;
+        bool fin = true;
+        for (int i = 0; i < n; i++) fin = fin && std::isfinite((double) std::abs(bw[i]));
+        if (fin) { b = bw; ctx.count("rhs/(A-sigma*I)w"); }
+    }
     const VecCLD bl = toCLD(b);
     const LD fn = fnorm(F), bn = fnorm(bl);
     Outcome first;
